@@ -117,6 +117,15 @@ CALLS = {
     'Mahony.updateIMU': lambda c: (_f(c).Mahony().updateIMU, [c.track('q', c.unit_quat('q')), _arr(c, 'g', 3), _arr(c, 'a', 3)]),
     'Mahony.updateMARG': lambda c: (_f(c).Mahony().updateMARG, [c.track('q', c.unit_quat('q')), _arr(c, 'g', 3), _arr(c, 'a', 3), _arr(c, 'm', 3)]),
     'Mahony(b0=)': lambda c: (lambda b: _f(c).Mahony(b0=b).b, [_arr(c, 'b', 3, nonzero=False)]),
+    # constructor keeps what it was given, a later step must not write into it
+    'Mahony(q0,b0).updateIMU': lambda c: (lambda q0, b0, g, a: _f(c).Mahony(q0=q0, b0=b0).updateIMU(q0, g, a),
+                                          [c.track('q0', c.unit_quat('q0')), _arr(c, 'b0', 3, nonzero=False), _arr(c, 'g', 3), _arr(c, 'a', 3)]),
+    'Madgwick(q0).updateIMU': lambda c: (lambda q0, g, a: _f(c).Madgwick(q0=q0).updateIMU(q0, g, a),
+                                         [c.track('q0', c.unit_quat('q0')), _arr(c, 'g', 3), _arr(c, 'a', 3)]),
+    'AngularRate(q0).update': lambda c: (lambda q0, g: _f(c).AngularRate(q0=q0).update(q0, g),
+                                         [c.track('q0', c.unit_quat('q0')), _arr(c, 'g', 3)]),
+    'EKF(q0).update': lambda c: (lambda q0, g, a: _f(c).EKF(q0=q0).update(q0, g, a),
+                                 [c.track('q0', c.unit_quat('q0')), _arr(c, 'g', 3), _arr(c, 'a', 3)]),
     'AngularRate.update': lambda c: (_f(c).AngularRate().update, [c.track('q', c.unit_quat('q')), _arr(c, 'g', 3)]),
     'AQUA.updateIMU': lambda c: (_f(c).AQUA().updateIMU, [c.track('q', c.unit_quat('q')), _arr(c, 'g', 3), _arr(c, 'a', 3)]),
     'EKF.update.imu': lambda c: (_f(c).EKF().update, [c.track('q', c.unit_quat('q')), _arr(c, 'g', 3), _arr(c, 'a', 3)]),
@@ -125,7 +134,8 @@ CALLS = {
 }
 
 REPEATABLE_SKIP = {'FLAE(weights=)', 'Mahony(b0=)', 'Tilt.estimate', 'Tilt(2d)', 'FQA()', 'FQA.estimate'}
-STATEFUL = {'Mahony.updateIMU', 'Mahony.updateMARG', 'EKF.update.imu', 'Fourati.update'}
+STATEFUL = {'Mahony.updateIMU', 'Mahony.updateMARG', 'EKF.update.imu', 'Fourati.update', 'Mahony(q0,b0).updateIMU',
+            'Madgwick(q0).updateIMU', 'AngularRate(q0).update', 'EKF(q0).update'}
 
 
 HEAVY = {'FQA()', 'FQA.estimate', 'Tilt(2d)', 'sarabandi', 'ecompass.NED.quat'}
